@@ -133,10 +133,8 @@ func solveOne(c *Ctx, o *Obligation, dir string, timeoutMs int, seed int) *Verdi
 				if ms > 8000 {
 					ms = 8000
 				}
-				st, out := runSolver(context.Background(), solvers[0], lfile, ms, seed)
-				v.Attempts = append(v.Attempts, fmt.Sprintf("light/%s:%s", solvers[0].name, st))
-				if st == "unsat" {
-					v.Status, v.Solver, v.Output = st, solvers[0].name+"(light)", out
+				if name, out, ok := raceUnsat(lfile, []solverCfg{solvers[0], z3NewArith6}, ms, seed, &v.Attempts, "light"); ok {
+					v.Status, v.Solver, v.Output = "unsat", name+"(light)", out
 					v.Millis = time.Since(start).Milliseconds()
 					return v
 				}
@@ -152,17 +150,10 @@ func solveOne(c *Ctx, o *Obligation, dir string, timeoutMs int, seed int) *Verdi
 				if ms > 15000 {
 					ms = 15000
 				}
-				for _, sc := range solvers[:2] {
-					st, out := runSolver(context.Background(), sc, ifile, ms, seed)
-					v.Attempts = append(v.Attempts, fmt.Sprintf("inst/%s:%s", sc.name, st))
-					if st == "unsat" {
-						v.Status, v.Solver, v.Output = st, sc.name+"(inst)", out
-						v.Millis = time.Since(start).Milliseconds()
-						return v
-					}
-					if st == "sat" {
-						break // the weakened query has a model: go on with the full query
-					}
+				if name, out, ok := raceUnsat(ifile, []solverCfg{solvers[0], z3NewArith6, solvers[1]}, ms, seed, &v.Attempts, "inst"); ok {
+					v.Status, v.Solver, v.Output = "unsat", name+"(inst)", out
+					v.Millis = time.Since(start).Milliseconds()
+					return v
 				}
 			}
 		}
@@ -308,4 +299,34 @@ func verdictGood(v *Verdict) bool {
 		return v.Status == "sat" || v.Status == "unknown" || v.Status == "timeout"
 	}
 	return v.Status == "unsat"
+}
+
+// z3NewArith6: z3 5.1 with the alternative arithmetic solver; decides nonlinear divisibility goals
+// (x % m == 0 chains with symbolic m) that the default configuration answers `unknown` to for most
+// random seeds (measured on splitQuery's step-grid invariant: 0.6 s vs. unknown after 20 s).
+var z3NewArith6 = solverCfg{"z3-new/arith6", func(f string, ms, seed int) []string {
+	return []string{"z3-new", fmt.Sprintf("-t:%d", ms), "smt.arith.solver=6", fmt.Sprintf("smt.random_seed=%d", seed), fmt.Sprintf("sat.random_seed=%d", seed), f}
+}}
+
+// raceUnsat runs several solver configurations on one query in parallel; the first `unsat` wins.
+func raceUnsat(file string, cfgs []solverCfg, ms, seed int, attempts *[]string, stage string) (string, string, bool) {
+	ctx, cancel := context.WithCancel(context.Background())
+	defer cancel()
+	type res struct{ st, out, name string }
+	ch := make(chan res, len(cfgs))
+	for _, sc := range cfgs {
+		sc := sc
+		go func() {
+			s, o := runSolver(ctx, sc, file, ms, seed)
+			ch <- res{s, o, sc.name}
+		}()
+	}
+	for range cfgs {
+		r := <-ch
+		*attempts = append(*attempts, fmt.Sprintf("%s/%s:%s", stage, r.name, r.st))
+		if r.st == "unsat" {
+			return r.name, r.out, true
+		}
+	}
+	return "", "", false
 }
